@@ -231,11 +231,19 @@ mk('C06', ['MixInv','MixDP'], [C06_total,
    lifted('C06_plan_1','MixDP','plan_1',''), lifted('C06_plan_ge2','MixDP','plan_ge2','facts of the concrete planner model: the step kind and length it prescribes'),
    lifted('C06_plan_2','MixDP','plan_2',''), lifted('C06_C_ics','MixDP','C_ics','cost recurrence, restart checkpoint'), lifted('C06_C_adj','MixDP','C_adj','cost recurrence, adjoint-dependency checkpoint'),
    lifted('C06_planC_unfold_partial','MixDP','planC_unfold','PARTIAL: the planner value is the minimum over the candidates of its own recurrence (one-level unfolding); that no executable schedule whatsoever does better (Maddison 2024, Thm 1) is not proved')])
-mk('C07', ['RevCost','RevConv','RevBridge4','RevolveRun','Opt0Table'], [
+mk('C07', ['RevCost','RevConv','RevBridge4','RevolveRun','Opt0Table','DiskCost'], [
    lifted('C07_revolve_forward_total','RevolveRun','revolve_forward_total','Revolve on the extracted model, every cost vector with uf > 0: forward steps at exhaustion = N + P s (N-1), P = the step-count DP (Opt0Table.P: minimum over all first splits); reversed steps = N by the run theorem; no DISK traffic (budget 0)'),
    lifted('C07_revolve_table_optimum','RevolveRun','revolve_table_optimum','... and the entry of the extracted get_opt_0_table for the whole problem is N ub + uf P s (N-1): stream cost uf*fwd + ub*N = table optimum + N uf, the memory-only optimum'),
    lifted('C07_opt0_values','Opt0Table','opt0_values','every entry of the table the generators read is (l+1) ub + uf P m l'),
-   lifted('C07_other_classes_partial','RevCost','revolve_work','PARTIAL: the cost theorems for DiskRevolve, PeriodicDiskRevolve and HRevolve (get_opt_inf_table, get_hopt_table) and the three orderings between the classes are not proved: correspondence + clean-DP oracle only; (this lemma is the structural work formula the Revolve theorem rests on)'),
+   lifted('C07_revolve_optimal_in_grammar','DiskCost','revolve_optimal','REVOLVE, operation lists (cost = uf per forward step + ub per Backward + wd per Write_disk + rd per Read_disk): the list revolve produces is in the grammar RevBlk.Blk, costs exactly the opt_0 table entry + (l+1) uf, and no list of that grammar for l steps and cm slots costs less'),
+   lifted('C07_disk_revolve_optimal_in_grammar','DiskCost','disk_revolve_optimal','DISKREVOLVE: the list disk_revolve produces is in the grammar DiskBlk.DBlk (each disk checkpoint written once and read once, every segment reversed by a memory-only block), costs exactly Dv l + (l+1) uf, and no list of that grammar costs less'),
+   lifted('C07_Dv_recurrence','DiskCost','Dv_unfold','... where Dv is the Disk-Revolve recurrence: Dv l = min(opt_0[cm][l], min_j (wd + j uf + Dv (l-j) + rd + opt_0[cm][j-1]))'),
+   lifted('C07_optinf_values','DiskCost','optinf_values','... which is what the extracted get_opt_inf_table tabulates'),
+   lifted('C07_disk_le_revolve','DiskCost','disk_le_revolve','cost(DiskRevolve) <= cost(Revolve), same l, cm and costs'),
+   lifted('C07_periodic_ge_disk','DiskCost','periodic_ge_disk','cost(PeriodicDiskRevolve) >= cost(DiskRevolve): the periodic list is in the DBlk grammar (PeriodGen.periodic_grammar)'),
+   lifted('C07_blk_cost_lower_bound','DiskCost','Blk_cost_lb','(the lower bounds) every memory block ...'),
+   lifted('C07_dblk_cost_lower_bound','DiskCost','DBlk_cost_lb','... and every disk block'),
+   lifted('C07_hrevolve_partial','RevCost','revolve_work','PARTIAL: for HRevolve (get_hopt_table) the cost theorem and monotonicity in the number of disk units are not proved: correspondence + clean-DP oracle only; for the disk classes the theorems above are about the operation lists -- the stream performs one Forward per Forward op with the same length (forward total: C07_revolve_forward_total; disk reads and writes of the stream are counted by the oracle); (this lemma is the structural work formula the Revolve theorem rests on)'),
    lifted('C07_argmin_min','RevCost','argmin_min','the split chosen is a minimiser'), lifted('C07_argmin_affine','RevCost','argmin_affine','the split does not depend on uf, ub')])
 C09_runs = """(* unlimited adjoint calculations, each executable: the run theorems hold for every number k of further requests *)
 Theorem C09_single_memory_passes : forall (N : Z), 1 <= N -> N <= maxsize -> forall k : nat,
